@@ -81,18 +81,22 @@ fn main() {
     // 1. regression files (every shrunk failure ever found), then the property's own stages
     // (VERIF_NO_REGRESS=1 is a developer switch used by the sensitivity tests: it shows what the
     // generators find on their own, without the saved regression inputs)
-    if std::env::var("VERIF_NO_REGRESS").is_err() {
+    // developer switch for testing the coverage-guided stage on its own
+    let only_fuzz = std::env::var("VERIF_ONLY_FUZZ").is_ok();
+    if std::env::var("VERIF_NO_REGRESS").is_err() && !only_fuzz {
         props::replay_regressions(&ctx, prop);
     }
     // committed fuzz corpus through this property's oracle (both tiers)
     // (C19 bounds work: its own stages go from short to long inputs, so that a weakened pruning step
     // is reported from the counters of a short input before a long corpus input becomes slow)
-    if id != "C19" {
-        dmcheck::fuzzstage::corpus_stage(&ctx, prop);
-    }
-    (prop.run)(&ctx);
-    if id == "C19" {
-        dmcheck::fuzzstage::corpus_stage(&ctx, prop);
+    if !only_fuzz {
+        if id != "C19" {
+            dmcheck::fuzzstage::corpus_stage(&ctx, prop);
+        }
+        (prop.run)(&ctx);
+        if id == "C19" {
+            dmcheck::fuzzstage::corpus_stage(&ctx, prop);
+        }
     }
     // coverage-guided stage (thorough tier only; VERIF_NO_FUZZ=1 skips it, VERIF_FUZZ_RUNS overrides the budget)
     if tier == Tier::Thorough && std::env::var("VERIF_NO_FUZZ").is_err() {
